@@ -157,6 +157,13 @@ EvalNode(S, i, t) ==
                  THEN [S EXCEPT !.errs = Append(S.errs, <<t, i, iv[1]>>)]
                  ELSE Write(S, i, t, iv[1] * 2)
             ELSE S
+      \* fdiv: the library's lifted integer floor division (a node with a specialised evaluator); a zero divisor throws
+      [] n.kind = "fdiv" ->
+            IF anyTick /\ allOk
+            THEN IF iv[2] = 0
+                 THEN [S EXCEPT !.errs = Append(S.errs, <<t, i, 0>>)]
+                 ELSE Write(S, i, t, iv[1] \div iv[2])
+            ELSE S
       [] OTHER ->
             IF anyTick /\ allOk
             THEN LET r  == F(n, iv, iok, S.st[i])
